@@ -50,7 +50,52 @@ func lockSkeleton(rel, recv, fn string) string {
 	return strings.Join(items, " ; ")
 }
 
+// closeWithOrder: what endPoint.closeWith does to the stream and to the handler table, in source
+// order, and whether the call of stream.Close() comes before the loop over the table.
+func closeWithOrder() (string, bool) {
+	f, fd := funcDecl("bus/net/endpoint.go", "endPoint", "closeWith")
+	if fd == nil {
+		return "<missing>", false
+	}
+	var items []string
+	closeAt, rangeAt := -1, -1
+	ast.Inspect(fd.Body, func(n ast.Node) bool {
+		switch x := n.(type) {
+		case *ast.DeferStmt:
+			items = append(items, "defer "+exprText(f.fset, x.Call.Fun))
+			return false
+		case *ast.GoStmt:
+			items = append(items, "go "+exprText(f.fset, x.Call.Fun))
+			return false
+		case *ast.RangeStmt:
+			if rangeAt < 0 {
+				rangeAt = len(items)
+			}
+			items = append(items, "range "+exprText(f.fset, x.X))
+		case *ast.CallExpr:
+			t := exprText(f.fset, x.Fun)
+			if strings.HasSuffix(t, ".Close") {
+				if closeAt < 0 {
+					closeAt = len(items)
+				}
+				items = append(items, t)
+			} else if strings.HasSuffix(t, "Lock") || strings.HasSuffix(t, "Unlock") {
+				items = append(items, t)
+			}
+		case *ast.AssignStmt:
+			if _, ok := x.Lhs[0].(*ast.IndexExpr); ok {
+				items = append(items, strings.Join(strings.Fields(exprText(f.fset, x)), " "))
+			}
+		}
+		return true
+	})
+	return strings.Join(items, " ; "), closeAt >= 0 && rangeAt >= 0 && closeAt < rangeAt
+}
+
 func factsC04() {
+	order, closeFirst := closeWithOrder()
+	emitStr("f_c04_closewith_order", order)
+	emitBool("f_c04_closewith_close_first", closeFirst)
 	emitNList("f_c04_filter_dropped", typesDroppedByFilter())
 	emitStr("f_c04_nextid_skeleton", lockSkeleton("bus/client.go", "client", "nextMessageID"))
 	emitStr("f_c04_newclient_text", normText("bus/client.go", "", "NewClient"))
